@@ -47,6 +47,9 @@ end
     token (the number terminator set: whitespace, comma, `;`, brackets, `"`, `#`) -/
 def TermStart (rest : Bytes) : Prop := rest = [] ∨ ∃ c t, rest = c :: t ∧ isNumTerm c = true
 
+/-- end of the input or a delimiter byte: what must follow an identifier or character token -/
+def DelimStart (rest : Bytes) : Prop := rest = [] ∨ ∃ c t, rest = c :: t ∧ isDelim c = true
+
 /-- whitespace bytes, commas and closed line comments -/
 inductive Blank : Bytes → Prop
   | nil : Blank []
